@@ -125,6 +125,15 @@ def run_case(case, ctx):
 
 
 def shard_main(ctx):
+    if ctx.shard == 6:
+        # one 2D line of more than 65 536 traces, every run (vp/big.py)
+        from .. import big
+        case = {"src": big.LINE_2D, "setting": {"rate": 4, "blockshape": [1, 2048, 4]}, "mode": "heuristic", "ops": [], "shared_reader": True}
+        try:
+            ctx.evaluate(case, run_case)
+        except Violation as v:
+            ctx.failures.append({"kind": v.kind, "detail": v.detail, "case": case})
+            return
     ctx.explore("2d", cases(), run_case, ctx.n(120, 1500))
 
 
